@@ -11,3 +11,5 @@ def check(rep, tier):
     from contracts import vspaces, core_backward
     rep.run(vspaces.run_scalar, rep, tier)
     rep.run(core_backward.run_proof, rep, tier, which=('backward_pass',))
+    from contracts import discipline as _d11
+    rep.run(_d11.run_frame, rep, tier)        # no memo / history in the index conversion of untake
